@@ -736,6 +736,8 @@ func (w *World) exec(line string) Result {
 		return w.execTx(f)
 	case "dump":
 		return Result{Line: "ok"}
+	case "reimport":
+		return w.reimport()
 	case "genesis":
 		if w.Real {
 			return w.genesisApp()
